@@ -1,7 +1,5 @@
 package main
 
 func init() {
-	propRules["C12"] = func(c *Ctx) { ribFamily(c, famSel{nilGuard: true, validate: true}) }
-	propRules["C01"] = func(c *Ctx) { ribFamily(c, famSel{mergeTotal: true, noTrace: true, delIdem: true, keyAgree: true}) }
 	propRules["C16"] = func(c *Ctx) { ribFamily(c, famSel{hookAdd: true, hookDel: true, hookFlush: true}) }
 }
